@@ -475,6 +475,11 @@ func (e *Engine) VerifyFunction(fn *ssa.Function, opts VerifyOpts) (res *FuncRes
 		}
 		// entry snapshot for old(): components touched later resolve to the same H0 constants
 		fr.oldHeap = copyHeap(st.heap)
+		if ct != nil {
+			for _, gs := range ct.GhostVars {
+				e.setGhost(st, fr, gs, nil)
+			}
+		}
 		if len(fn.Blocks) == 0 {
 			panic(unsupported("function has no body"))
 		}
@@ -539,20 +544,52 @@ func (e *Engine) VerifyFunction(fn *ssa.Function, opts VerifyOpts) (res *FuncRes
 		typed := e.typingAxioms(script)
 		go func(ob *Obligation, script string) {
 			defer wg.Done()
-			r := Solve(script, dir, sanitize(ob.Name), opts.TimeoutS)
-			if r.Status != "unsat" && typed != "" {
-				// second phase: with the typing axioms of the heap (every byte cell is in 0..255, ...).
-				// They are left out of the first phase because quantified axioms turn satisfiable
-				// queries (counterexamples) into "unknown".
+			var r SolveResult
+			if typed == "" {
+				r = Solve(script, dir, sanitize(ob.Name), opts.TimeoutS)
+			} else {
+				// two variants raced: without and with the typing axioms of the heap (every byte cell
+				// is in 0..255, ...). Quantified axioms turn satisfiable queries (counterexamples) into
+				// "unknown", so the plain variant is kept for finding models; "unsat" from either
+				// variant discharges the obligation (the axioms are sound, and fewer assumptions
+				// only make the proof stronger).
 				i := strings.LastIndex(script, "(assert ")
 				script2 := script[:i] + typed + script[i:]
-				r2 := Solve(script2, dir, sanitize(ob.Name)+".typed", opts.TimeoutS)
-				if r2.Status == "unsat" {
-					r2.Seconds += r.Seconds
-					r = r2
-				} else if r.Status == "sat" {
-					// the model of phase 1 may violate the typing axioms: only a replay can confirm it
-					r.Outputs["note"] = "model found without the heap typing axioms; with them: " + r2.Status
+				ch := make(chan SolveResult, 2)
+				go func() { ch <- Solve(script, dir, sanitize(ob.Name), opts.TimeoutS) }()
+				go func() {
+					r2 := Solve(script2, dir, sanitize(ob.Name)+".typed", opts.TimeoutS)
+					if r2.Status == "sat" {
+						// a model of the typed variant is a model of the plain one
+						r2.Status = "sat"
+					}
+					r2.Solver += "+typing"
+					ch <- r2
+				}()
+				a := <-ch
+				if a.Status == "unsat" {
+					r = a
+				} else {
+					b := <-ch
+					switch {
+					case b.Status == "unsat":
+						r = b
+					case a.Status == "sat":
+						r = a
+					case b.Status == "sat":
+						r = b
+					default:
+						r = a
+						if b.Seconds > r.Seconds {
+							r.Seconds = b.Seconds
+						}
+					}
+					if r.Status == "sat" && !strings.HasSuffix(r.Solver, "+typing") {
+						if r.Outputs == nil {
+							r.Outputs = map[string]string{}
+						}
+						r.Outputs["note"] = "model found without the heap typing axioms; only a replay can confirm it"
+					}
 				}
 			}
 			ob.Seconds = r.Seconds
@@ -652,7 +689,13 @@ func (e *Engine) atReturn(st *State, fr *Frame, results []Value) {
 	for i, r := range results {
 		t := fr.fn.Signature.Results().At(i).Type()
 		vars[names[i]] = specVal{r, t}
-		if len(results) == 1 {
+		clash := false
+		for _, p := range fr.fn.Params {
+			if p.Name() == "ret" {
+				clash = true
+			}
+		}
+		if len(results) == 1 && !clash {
 			vars["ret"] = specVal{r, t}
 		}
 	}
